@@ -45,6 +45,9 @@ func syncPlan(prop, tier string, seed uint64) (runs []syncRun, crashIsViolation 
 			// the later synchronisation from converging: split fetch/merge, closure from every state
 			fs := syncw.Params{Replicas: 2, Oracles: "c01", Seed: seed, Split: true, OneEdit: true, Closure: true}
 			runs = append(runs, syncRun{"2 replicas, split fetch/merge over the shared remote, synchronisation from every state", fs, 4, 45 * time.Second})
+			// the host repacks its refs (git gc) while git-bug's handle on the repository stays open
+			pk := syncw.Params{Replicas: 2, Oracles: "c01", Seed: seed, OneEdit: true, PackRefs: true, Closure: true}
+			runs = append(runs, syncRun{"2 replicas, refs packed by stock git along the way (handles stay open)", pk, 5, 75 * time.Second})
 		} else {
 			runs = []syncRun{{"2 replicas, atomic pull", base, 8, 15 * time.Minute}}
 			x := syncw.Params{Replicas: 2, Oracles: "c01", Seed: seed, Peers: true, Split: true, NoRemote: true}
@@ -63,6 +66,8 @@ func syncPlan(prop, tier string, seed uint64) (runs []syncRun, crashIsViolation 
 			runs = append(runs, syncRun{"2 replicas, stock git transport (plain-path remote): cross-check of the in-process transport", dk, 5, 10 * time.Minute})
 			fs := syncw.Params{Replicas: 2, Oracles: "c01", Seed: seed, Split: true, OneEdit: true, Closure: true}
 			runs = append(runs, syncRun{"2 replicas, split fetch/merge over the shared remote, synchronisation from every state", fs, 6, 10 * time.Minute})
+			pk := syncw.Params{Replicas: 2, Oracles: "c01", Seed: seed, OneEdit: true, PackRefs: true, Closure: true}
+			runs = append(runs, syncRun{"2 replicas, refs packed by stock git along the way (handles stay open)", pk, 7, 10 * time.Minute})
 		}
 		rule = "breadth-first over all interleavings of edit/push/pull actions of the replicas; states deduplicated by (all refs of all repositories, persisted clocks, per-actor seam counters); a state is non-trivial when distinct by that key"
 	case "C02":
@@ -76,6 +81,10 @@ func syncPlan(prop, tier string, seed uint64) (runs []syncRun, crashIsViolation 
 			// other side has not seen needs 7 steps)
 			o := syncw.Params{Replicas: 2, Oracles: "c02", Seed: seed, OneEdit: true}
 			runs = append(runs, syncRun{"2 replicas, single-operation edits only: repeated concurrent rounds", o, 10, 90 * time.Second})
+			// users with signing keys: every commit is signed and verified each time it is read, and a
+			// pull reads the shared commits more than once
+			sg := syncw.Params{Replicas: 2, Oracles: "c02", Seed: seed, OneEdit: true, Signed: true}
+			runs = append(runs, syncRun{"2 replicas, users with signing keys (signed commits)", sg, 5, 60 * time.Second})
 		} else {
 			runs = []syncRun{{"2 replicas, atomic pull", base, 8, 15 * time.Minute}}
 			p := base
@@ -84,6 +93,8 @@ func syncPlan(prop, tier string, seed uint64) (runs []syncRun, crashIsViolation 
 			q := base
 			q.Replicas, q.NewBug = 3, true
 			runs = append(runs, syncRun{"3 replicas, second bug", q, 5, 10 * time.Minute})
+			sg := syncw.Params{Replicas: 2, Oracles: "c02", Seed: seed, Signed: true, Edit2: true}
+			runs = append(runs, syncRun{"2 replicas, users with signing keys (signed commits)", sg, 7, 8 * time.Minute})
 		}
 		crashIsViolation = true
 		rule = "same exploration as C01; every pull/merge transition is compared with the five-scenario reference model; non-trivial = distinct state key"
